@@ -396,6 +396,34 @@ func genTypeAddr(byDir map[string]*parsed) []*genFile {
 	}
 	alloc("internal/encoder", "compiler.go", "initEncoder", "cachedOpcodeSets", "enc_cache_len")
 	alloc("internal/decoder", "compile.go", "initDecoder", "cachedDecoder", "dec_cache_len")
+	// how the init functions are written (Model/InitOnce.v): the whole body is one <once>.Do(func() { ... }) whose
+	// last statement allocates the cache slice; anything else (a test in front of the Once, an allocation outside it)
+	// lets a goroutine past the function while another is still inside the body
+	onceOnly := func(dir, file, fn, slice, name string) {
+		ok := false
+		if f := byDir[dir].files[file]; f != nil {
+			if fd := findFunc(f, fn); fd != nil && fd.Body != nil && len(fd.Body.List) == 1 {
+				if es, isE := fd.Body.List[0].(*ast.ExprStmt); isE {
+					if call, isC := es.X.(*ast.CallExpr); isC && len(call.Args) == 1 {
+						if sel, isS := call.Fun.(*ast.SelectorExpr); isS && sel.Sel.Name == "Do" {
+							if lit, isL := call.Args[0].(*ast.FuncLit); isL && len(lit.Body.List) > 0 {
+								last := nodeText(byDir[dir].fset, lit.Body.List[len(lit.Body.List)-1])
+								ok = strings.HasPrefix(last, slice+" = make(")
+							}
+						}
+					}
+				}
+			}
+		}
+		v := "false"
+		if ok {
+			v = "true"
+		}
+		g.pf("(* %s/%s: %s is `once.Do(func() { ...; %s = make(...) })` and nothing else *)\nDefinition %s : bool := %s.\n\n", dir, file, fn, slice, name, v)
+		facts[name] = ok
+	}
+	onceOnly("internal/encoder", "compiler.go", "initEncoder", "cachedOpcodeSets", "enc_init_through_once_only")
+	onceOnly("internal/decoder", "compile.go", "initDecoder", "cachedDecoder", "dec_init_through_once_only")
 	if len(t.errs) > 0 {
 		g.pf("(* translation problems:\n")
 		for _, e := range t.errs {
